@@ -56,6 +56,9 @@ def label_variants(sh, dev):
     root = model.decorate(sh, lambda p, s: 'VROOT')
     yield model.MT(1, model.mk_tokens(n, words=['w%d' % (i % 2) for i in range(n)],
                                       pos=[['VROOT', 'EMPTY', 'x'][i % 3] for i in range(n)]), root)
+    # words that differ only in Unicode normalisation are different words
+    yield model.MT(1, model.mk_tokens(n, words=[['caf\u00e9', 'cafe\u0301', '\u212b', '\u00c5'][i % 4] for i in range(n)],
+                                      pos=['x'] * n), model.decorate(sh, lambda p, s: 'A'))
 
 
 def norm(g):
